@@ -233,8 +233,11 @@ def g_stats(F, X):
         i_wr = body.find("write_stats(")
         i_val = body.find("validate_other_stats(")
         if i_wr >= 0 and i_val >= 0:
-            val = 0 <= i_fin < i_wr < i_val
-    F.add("stats_finalized_before_write_and_compare", "bool", val, True, "controller.rs run: finalize precedes write_stats precedes validate_other_stats")
+            # ... and the finalize call is UNCONDITIONAL (brace depth 0 of the function body): report skipped or not, view or check or
+            # `-o stdout`, the statistics are sorted and completed before they are written or compared (seed C05-K guarded it by view())
+            val = 0 <= i_fin < i_wr < i_val and body[:i_fin].count("{") == body[:i_fin].count("}")
+    F.add("stats_finalized_before_write_and_compare", "bool", val, True,
+          "controller.rs run: an unconditional finalize precedes write_stats precedes validate_other_stats")
     sc = X.strip_comments(X.read(X.FP + "/stats/stats_collector.rs"))
     wb = X.fn_body(sc, "write_stats_str")
     val = None
